@@ -72,24 +72,57 @@ SCHEMA_ERRORS = (D.ERR_TYPE, D.ERR_VALUE, D.ERR_KEY)
 
 # ---- the three classes of a case ---------------------------------------------------------------------
 class _Base: pass
-def make_classes(specs, refs):
-  """Three pg.Object classes (fields x,y / x,y,z / x as in symcore_driver) whose field specs come from the table."""
+def make_class(i, spec):
+  """pg.Object class i (fields x,y / x,y,z / x as in symcore_driver) whose field specs come from the class schema spec (None: Any fields).
+  An Object spec with class path (2, c) in a spec tree stands for class c of the case (c < i inside the schema of class i)."""
   P = pg(); T = P.typing
-  out = []
-  for i, ref in enumerate(refs):
-    names = D.CLASS_FIELDS[i]
-    if ref == 0:
-      fields = [(n, T.Any(default=None)) for n in names]
-    else:
-      sch = specs[ref - 1].schema
-      fields = [(n, copy.deepcopy(sch.get_field(n).value)) for n in names]
-    ns = {}
-    if i == 1: ns['allow_symbolic_assignment'] = True
-    if i == 2: ns['allow_symbolic_mutation'] = False
-    cls = type('Obj' + 'ABC'[i], (P.Object,), ns)
-    cls = P.members(fields)(cls)
-    out.append(cls)
-  return out
+  names = D.CLASS_FIELDS[i]
+  if spec is None:
+    fields = [(n, T.Any(default=None)) for n in names]
+  else:
+    fields = [(n, copy.deepcopy(spec.schema.get_field(n).value)) for n in names]
+  ns = {'PATH': (2, i)}
+  if i == 1: ns['allow_symbolic_assignment'] = True
+  if i == 2: ns['allow_symbolic_mutation'] = False
+  cls = type('Obj' + 'ABC'[i], (P.Object,), ns)
+  return P.members(fields)(cls)
+
+_PLACEHOLDERS = []
+def ensure_case_classes():
+  """Placeholder classes for the class paths (2, c), so that spec trees can be built before a case exists (Table, canon)."""
+  if not _PLACEHOLDERS:
+    _PLACEHOLDERS.extend(make_class(i, None) for i in range(3))
+  return _PLACEHOLDERS
+
+@contextlib.contextmanager
+def own_classes(classes=None):
+  """c04.build resolves the class paths (2, c) to these classes (default: placeholders) for the duration."""
+  classes = list(classes if classes is not None else ensure_case_classes())
+  saved = {k: c04.CLASSES[k] for k in list(c04.CLASSES) if k[0] == 2}
+  for k in saved: del c04.CLASSES[k]
+  for i, c in enumerate(classes): c04.CLASSES[(2, i)] = c
+  try:
+    yield
+  finally:
+    for i in range(len(classes)): c04.CLASSES.pop((2, i), None)
+    c04.CLASSES.update(saved)
+
+def build_specs_and_classes(spec_trees, cls_refs):
+  """-> (specs, classes): the class schemas first, in class order (class i may refer to the classes before it), then the rest."""
+  specs = [None] * len(spec_trees)
+  classes = []
+  with own_classes([]):
+    for i, ref in enumerate(cls_refs):
+      if ref and specs[ref - 1] is None:
+        specs[ref - 1] = c04.build(spec_trees[ref - 1])
+      cls = make_class(i, specs[ref - 1] if ref else None)
+      c04.CLASSES[(2, i)] = cls
+      classes.append(cls)
+    for n, t in enumerate(spec_trees):
+      if specs[n] is None:
+        specs[n] = c04.build(t)
+    for i in range(3): c04.CLASSES.pop((2, i), None)
+  return specs, classes
 
 # ---- pv <-> Python -----------------------------------------------------------------------------------
 def render_pv(v):
@@ -108,10 +141,10 @@ class TImpl(D.Impl):
   def __init__(self, spec_trees, cls_refs):
     super().__init__()
     self.spec_trees = spec_trees
-    self.specs = [c04.build(t) for t in spec_trees]
+    self.specs, self.classes = build_specs_and_classes(spec_trees, cls_refs)
     self.spec_lines = [self.spec_line(t) for t in spec_trees]
-    self.decl_specs = [c04.build(t) for t in spec_trees]      # for the oracle only: never bound to a container of the case
-    self.classes = make_classes(self.specs, cls_refs)
+    with own_classes(self.classes):
+      self.decl_specs = [c04.build(t) for t in spec_trees]    # for the oracle only: never bound to a container of the case
     self.cls_refs = list(cls_refs)
     self.partial_used = False       # some step ran under an allow_partial(True) scope
     self.by_reference_roots = False # some root was constructed from symbolic values
@@ -312,8 +345,10 @@ def run_case(case, after_step=None, after_init=None, guard=True):
   """guard: operations outside the vocabulary of the model (see op_supported) are answered 'not applicable' without being run."""
   _, spec_trees, cls_refs, roots, steps = case
   impl = TImpl(spec_trees, cls_refs)
+  prime = len(case[0]) > 7 and bool(case[0][7])
   with patched(impl):
     inits = build_roots(impl, roots)
+    if prime: prime_queries(impl)
     if after_init: after_init(impl, inits)
     snap0 = impl.snapshot()
     outs = []
@@ -326,9 +361,22 @@ def run_case(case, after_step=None, after_init=None, guard=True):
       else:
         impl.popitem = op[0] == D.DPOPITEM
         res, info = D.apply_op(impl, scope, op)
+      if prime: prime_queries(impl)
       if after_step: after_step(impl, n, scope, op, res, info, before)
       outs.append([res, impl.snapshot()])
   return [inits, snap0, outs]
+
+def prime_queries(impl):
+  """The derived facts of every live node are asked for (entry 8 of the case's quirk list): sym_partial / is_partial, sym_missing,
+  sym_nondefault cache their answers, and a stale cache would show in what later writes accept.  Pure queries: no effect on the model."""
+  for root in list(impl.roots) + list(impl.moved.values()):
+    if root is None: continue
+    def visit(x, parent, key):
+      for q in (lambda: x.sym_partial, lambda: x.is_partial, lambda: x.sym_missing(), lambda: x.sym_nondefault(), lambda: x.sym_missing(flatten=False)):
+        try: q()
+        except Exception:     # pylint: disable=broad-except
+          pass
+    D.walk(root, visit)
 
 # ---- the direct oracle: the property text on the live objects ---------------------------------------------
 def plain(v):
@@ -612,9 +660,22 @@ class Oracle:
     self.failed = False
     self.stats = {}
     self.by_reference = False
+    self.obj_writes = []
   def prepare(self, impl, scope, op):
     # does the operation hand a symbolic value to a container that checks its members (outside the model, see op_supported)
     self.by_reference = False
+    self.obj_writes = []
+    impl.partial_now = scope_partial(scope) is True
+    try:
+      P = pg()
+      for x, key, v in written_keyed(impl, op):
+        if x is None or not typed_members(impl, x) or v[0] != 1: continue
+        y = impl.at((v[1], v[2]))
+        if isinstance(y, P.Object) and not (scope_partial(scope) is True or (scope_partial(scope) is None and x.allow_partial and op[0] != D.LADD)):
+          t = field_tree(impl, x, key)
+          if t is not None and t[0] == 8: self.obj_writes.append((x, y))
+    except Exception:     # pylint: disable=broad-except
+      pass
     try:
       for x, v in written(impl, op):
         while v[0] == 2: v = v[1]
@@ -663,6 +724,18 @@ class Oracle:
       after = impl.snapshot()
       if after != before:
         hits.append(('rejected-not-stored', 'refused-' + diff_kind(before, after), 'the call raised %s but the forest changed' % type(exc).__name__))
+    if not hits and res[0] == 0 and self.obj_writes:
+      # an object handed to an Object-typed field while partial values are not allowed must be fully bound -- found by walking
+      # its content, not by asking sym_partial / is_partial (whose caches may be stale)
+      for x, y in self.obj_writes:
+        try:
+          inside = any(n is y for n, _, _ in impl.reachable().values()) and y.sym_parent is not None
+          if inside and not impl.partial_now and py_partial(impl, y):
+            hits.append(('partial-object-accepted', 'Object', 'the %s stored at %r is not fully bound (a required field below it is MISSING_VALUE) '
+                         'but was accepted by an Object field of a container that does not allow partial values' % (type(y).__name__, str(y.sym_path))))
+            break
+        except Exception:     # pylint: disable=broad-except
+          pass
     if hits:
       self.failed = True
       clause, disc, detail = hits[0]
@@ -673,6 +746,8 @@ class Oracle:
     """(property, clause, operation kind, discriminator).  Two families are keyed by their cause rather than by the symptom, because
     one defect shows up under many clauses and operations: a symbolic value (a reference to a pg.Dict / pg.List / pg.Object, or a
     constructed one) written into a spec-checked container, and a write below the container held by a frozen field."""
+    if clause == 'partial-object-accepted':
+      return 'C03/partial-object-accepted/%s/%s' % (name, disc)
     if self.by_reference or clause in ('member-rejected', 'member-not-fixpoint', 'required-missing', 'frozen-differs', 'looser-spec-accepted'):
       sig = cause_signature(impl, clause, self.by_reference, res[0] == 0)
       if sig: return sig
@@ -1172,11 +1247,30 @@ def incompatible(t, st):
   if tq[1]: skip.add('receiver-frozen')
   return bool(rel_tags(t, st, frozenset(skip)))
 
+def py_partial(impl, y):
+  """A required field is unset somewhere at or below y, found by walking the content (not by asking sym_partial): MISSING_VALUE as a
+  member of a dict / object that carries a schema (SymCoreTyped.partial_node)."""
+  P = pg()
+  found = []
+  def visit(n, parent, key):
+    if isinstance(n, P.List): return
+    sp = impl.spec_of(n)
+    if sp is None or getattr(sp, 'schema', None) is None: return
+    if any(isinstance(v, P.utils.MissingValue) for _, v in D.sym_children(n)): found.append(n)
+  D.walk(y, visit)
+  return bool(found)
+
+def obj_checked(t):
+  """-> 'yes' the field (tree t) is an Object spec (it refuses objects that are not fully bound), 'maybe' a Union, 'no' otherwise."""
+  return 'yes' if t[0] == 8 else 'maybe' if t[0] == 9 else 'no'
+
 def ref_modelled(impl, x, key, y, scope, into_copy=False):
   """y (symbolic) handed to the member-checking container x: True when the model covers what happens (stored as it is, or refused
   by the field), False when the field would bind / complete / re-flag it (answered 'not applicable' on both sides)."""
   P = pg()
-  if unfilled(impl, y): return False
+  # a value that has a parent, or holds the target, is copied on the way: the copy of an object that is not partial but has an unfilled
+  # attribute is refused by its class
+  if unfilled(impl, y) and (y.sym_parent is not None or x.sym_root is y): return False
   try:
     t = field_tree(impl, x, key)
   except c04.Unrenderable:
@@ -1185,7 +1279,16 @@ def ref_modelled(impl, x, key, y, scope, into_copy=False):
   p = scope_partial(scope)
   if p is None: p = bool(x.allow_partial) and not into_copy      # list + values: the values are written into the copy, which is not partial
   if isinstance(y, P.Object):
-    return not t_frozen(t)
+    if t_frozen(t): return False
+    if not p and obj_checked(t) == 'maybe' and py_partial(impl, y):
+      try:
+        with own_classes(impl.classes):
+          u = c04.build(t)
+        impl_ok = True; u.apply(y, allow_partial=True)       # would the union take it at all
+      except Exception:     # pylint: disable=broad-except
+        impl_ok = False
+      return not impl_ok
+    return True
   dict_ = isinstance(y, P.Dict)
   ys = impl.spec_of(y)
   if ys is not None:
@@ -1236,9 +1339,17 @@ def value_supported(impl, x, key, v, scope, into_copy=False):
       return True
     if D.is_sym(y): return ref_modelled(impl, x, key, y, scope, into_copy)
   while v[0] == 2: v = v[1]
+  scoped = scope_partial(scope) is not None or scope_restrictive(scope)
+  def missing_ok():
+    # MISSING_VALUE stands for the default of the field: fine under a scope when that holds no dict / list
+    try:
+      t = field_tree(impl, x, key)
+    except c04.Unrenderable:
+      return False
+    return t is not None and not (t[-1][1] and has_container(t[-1][1][0]))
   if v[0] == 3:
-    # MISSING_VALUE stands for the default of the field, which may hold dicts / lists
-    return not ((scope_partial(scope) is not None or scope_restrictive(scope)) and (has_container(v[1]) or v[1] == [1]))
+    if v[1] == [1] and scoped: return missing_ok()
+    return not (scoped and has_container(v[1]))
   if v[0] == 0:
     return v[1][0] == 0
   if v[0] == 1:
@@ -1247,7 +1358,8 @@ def value_supported(impl, x, key, v, scope, into_copy=False):
     except D.NotApplicable:
       return True
     if D.is_sym(y): return False
-    return not ((scope_partial(scope) is not None or scope_restrictive(scope)) and isinstance(y, pg().utils.MissingValue))
+    if scoped and isinstance(y, pg().utils.MissingValue): return missing_ok()
+    return True
   return False
 
 def lit_has_obj(l):
@@ -1270,7 +1382,12 @@ def op_supported(impl, scope, op):
       t = None
     if t is not None and D.is_sym(t) and typed_members(impl, t): return False
   if scope_restrictive(scope) or scope_partial(scope) is not None:
-    # a value given by reference that has typed containers inside: if it has to be copied on the way, the copy is constructed under the scope
+    # a value given by reference that has typed containers inside and has to be copied on the way (it has a parent, or holds the target):
+    # the copy is constructed under the scope
+    try:
+      tgt_root = impl.roots[op[1][0]]
+    except Exception:     # pylint: disable=broad-except
+      tgt_root = None
     for v in _op_values(op):
       while v[0] == 2: v = v[1]
       if v[0] == 1:
@@ -1278,7 +1395,7 @@ def op_supported(impl, scope, op):
           y = impl.at((v[1], v[2]))
         except D.NotApplicable:
           continue
-        if D.is_sym(y) and any_typed(impl, y): return False
+        if D.is_sym(y) and any_typed(impl, y) and (y.sym_parent is not None or y is tgt_root): return False
   tag = op[0]
   if tag in (D.LIMUL, D.LMUL, D.LADD, D.LCOPY, D.CLONE, D.DCOPY, D.LEXTEND, D.LIADD):
     # re-inserting / copying typed symbolic children goes through the compatibility path of custom_apply (not modelled yet)
@@ -1307,7 +1424,8 @@ class Table:
   @staticmethod
   def tree(spec):
     t = spec if isinstance(spec, list) else c04.render(spec)
-    c = c04.canon(t)
+    with own_classes():
+      c = c04.canon(t)
     if c is None: raise ValueError('spec is not constructible: %r' % (t,))
     return c
   def add(self, spec):
@@ -1684,6 +1802,115 @@ def ref_sweep_cases(rng):
                         mkcase(tb, [root] + sroots, pre + [(NS, op), (NS, [D.DSET, Pp(1), 0, ek('w'), PV(1)]), (NS, [D.CLONE, Pp(0), 0])])))
   return out
 
+def nested_object_cases():
+  """Objects inside objects (Object specs of the case's own classes: ObjB.x : Object(ObjA), ObjC.x : Object(ObjB)) and in typed lists /
+  dicts: a subtree is made partial under allow_partial(True) at depth 1 or 2 (or not at all), before or after the derived facts of its
+  ancestors were asked for (priming, entry 8 of the quirk list), and is then handed -- by reference, it has no parent -- to an Object field
+  of a container outside the scope (refused: not fully bound) or inside it (accepted).  -> [(label, case)]"""
+  T = pg().typing
+  OA, OB = ensure_case_classes()[:2]
+  schA = T.Dict([('x', T.Int()), ('y', T.Any(default=None))])
+  schB = T.Dict([('x', T.Object(OA).noneable()), ('y', T.Any(default=None)), ('z', T.Any(default=None))])
+  schC = T.Dict([('x', T.Object(OB).noneable())])
+  out = []
+  PART = D.sc(partial=[True])
+  MISS = PV(MISSING())
+  for recv in ('ObjC.x', 'List', 'Dict', 'Union-field'):
+    tb = Table((schA, schB, schC))
+    if recv == 'List': rref = tb.add(T.List(T.Object(OB), max_size=3)); rroot = troot(1, rref, [])
+    elif recv == 'Dict': rref = tb.add(T.Dict([('m', T.Object(OB).noneable())])); rroot = troot(0, rref, {})
+    elif recv == 'Union-field': rref = tb.add(T.Dict([('m', T.Union([T.Int(), T.Object(OB)]).noneable())])); rroot = troot(0, rref, {})
+    else: rroot = troot(4, tb.cls[2], {})
+    roots = [troot(2, tb.cls[0], {'x': 1}), troot(3, tb.cls[1], {}), rroot]          # a, b, receiver
+    val = [1, 1, []]
+    if recv == 'ObjC.x':
+      writes = [('setattr', [D.OSET, Pp(2), ek('x'), val]), ('rebind', [D.REBIND, Pp(2), [[[ek('x')], val]]])]
+    elif recv == 'List':
+      writes = [('append', [D.LAPPEND, Pp(2), val]), ('insert', [D.LINSERT, Pp(2), 0, val]), ('extend', [D.LEXTEND, Pp(2), [val]]), ('iadd', [D.LIADD, Pp(2), [val]]),
+                ('rebind', [D.REBIND, Pp(2), [[[ek(0)], val]]])]
+    else:
+      writes = [('setitem', [D.DSET, Pp(2), 0, ek('m'), val]), ('setattr', [D.DSET, Pp(2), 1, ek('m'), val]), ('update', [D.DUPDATE, Pp(2), [[ek('m'), val]]]),
+                ('rebind', [D.REBIND, Pp(2), [[[ek('m')], val]]])]
+    holes = [('complete', []), ('depth-2-rebind', [(PART, [D.REBIND, Pp(1), [[[ek('x'), ek('x')], MISS]]])]),
+             ('depth-2-setattr', [(PART, [D.OSET, Pp(1, 'x'), ek('x'), MISS])]),
+             ('depth-2-then-filled', [(PART, [D.OSET, Pp(1, 'x'), ek('x'), MISS]), (NS, [D.OSET, Pp(1, 'x'), ek('x'), PV(2)])])]
+    for hname, hsteps in holes:
+      for wname, wop in writes:
+        for wscope, wsn in ((NS, 'outside'), (PART, 'inside')):
+          for prime in (0, 1):
+            steps = [(NS, [D.OSET, Pp(1), ek('x'), [1, 0, []]])] + hsteps + [(wscope, wop), (NS, [D.CLONE, Pp(2), 0])]
+            c = mkcase(tb, roots, steps)
+            out.append(('nested-object/%s/%s/%s/%s/%s' % (recv, hname, wname, wsn, 'primed' if prime else 'unprimed'), c, prime))
+    # depth 1: the object itself lacks a required attribute
+    for wscope, wsn in ((NS, 'outside'), (PART, 'inside')):
+      for prime in (0, 1):
+        steps = [(PART, [D.OSET, Pp(0), ek('x'), MISS]), (wscope, [D.OSET, Pp(1), ek('x'), [1, 0, []]]), (NS, [D.CLONE, Pp(1), 0])]
+        out.append(('nested-object/%s/depth-1/setattr/%s/%s' % (recv, wsn, 'primed' if prime else 'unprimed'), mkcase(tb, roots, steps), prime))
+  return out
+
+# ---- fields with a user transform (outside the spec vocabulary of the model: checked directly) --------------------------------------
+def transform_field_checks():
+  """Every write path into a Dict / List / Object whose member spec has a user transform: a value the transform-free twin of the spec
+  refuses must be refused and leave the content as it was; an accepted one must be stored in a form the twin accepts.
+  -> [(label, problem or None)]"""
+  P = pg(); T = P.typing
+  ident = lambda v: v
+  kinds = [('List-max_size', lambda tr: T.List(T.Int(), max_size=2, transform=tr), [1], [[6, 7, 8], ['a'], 5]),
+           ('List-element', lambda tr: T.List(T.Int(min_value=0), transform=tr), [2], [[-1], 'x']),
+           ('Dict-schema', lambda tr: T.Dict([('a', T.Int())], transform=tr), {'a': 1}, [{'a': 'bad'}, {'zz': 1}, [1]]),
+           ('Int-range', lambda tr: T.Int(min_value=0, max_value=5, transform=tr), 3, [9, 'a']),
+           ('Str', lambda tr: T.Str(transform=tr), 'a', [1])]
+  out = []
+  for kname, mk, good, bads in kinds:
+    try:
+      twin = mk(None)
+    except TypeError:
+      continue
+    class Base(P.Object):
+      x: mk(None)
+    Sub = P.members([('x', mk(ident))])(type('Sub', (Base,), {}))        # the transform comes with the subclass, the bounds are inherited
+    def containers():
+      d = P.Dict(value_spec=T.Dict([('x', mk(ident))]), x=copy.deepcopy(good))
+      l = P.List([copy.deepcopy(good)], value_spec=T.List(mk(ident), max_size=3))
+      o = Sub(x=copy.deepcopy(good))
+      return d, l, o
+    paths = [('Dict.setitem', lambda d, l, o, v: d.__setitem__('x', v), 0), ('Dict.setattr', lambda d, l, o, v: setattr(d, 'x', v), 0),
+             ('Dict.update', lambda d, l, o, v: d.update({'x': v}), 0), ('Dict.rebind', lambda d, l, o, v: d.rebind(x=v), 0),
+             ('Dict.construction', lambda d, l, o, v: P.Dict(value_spec=T.Dict([('x', mk(ident))]), x=v), None),
+             ('List.setitem', lambda d, l, o, v: l.__setitem__(0, v), 1), ('List.append', lambda d, l, o, v: l.append(v), 1),
+             ('List.insert', lambda d, l, o, v: l.insert(0, v), 1), ('List.extend', lambda d, l, o, v: l.extend([v]), 1),
+             ('List.construction', lambda d, l, o, v: P.List([v], value_spec=T.List(mk(ident))), None),
+             ('Object.rebind', lambda d, l, o, v: o.rebind(x=v), 2), ('Object.construction', lambda d, l, o, v: Sub(x=v), None)]
+    for pname, write, which in paths:
+      for bad in bads:
+        label = 'transform-field/%s/%s/%r' % (kname, pname, bad)
+        cs = containers()
+        before = [plain(c) if not isinstance(c, P.Object) else plain(c.sym_init_args) for c in cs]
+        problem = None
+        try:
+          made = write(*cs, copy.deepcopy(bad))
+          tgt = made if which is None else cs[which]
+          problem = 'the value %r was accepted: %s' % (bad, P.format(tgt, compact=True)[:120])
+        except (TypeError, ValueError, KeyError):
+          after = [plain(c) if not isinstance(c, P.Object) else plain(c.sym_init_args) for c in cs]
+          if not same_value_unordered(before, after):
+            problem = 'the write of %r was refused but the content changed' % (bad,)
+        except Exception as e:      # pylint: disable=broad-except
+          problem = 'the write of %r raised %s' % (bad, type(e).__name__)
+        out.append((label, problem))
+      cs = containers()
+      label = 'transform-field/%s/%s/valid' % (kname, pname)
+      problem = None
+      try:
+        made = write(*cs, copy.deepcopy(good))
+        tgt = made if which is None else cs[which]
+        stored = tgt.x if not isinstance(tgt, P.List) else tgt[-1] if pname in ('List.append', 'List.extend') else tgt[0]
+        twin.apply(plain(stored))
+      except Exception as e:        # pylint: disable=broad-except
+        problem = 'a valid value is refused or stored in a form its spec refuses (%s: %s)' % (type(e).__name__, str(e)[:80])
+      out.append((label, problem))
+  return out
+
 # ---- the check ---------------------------------------------------------------------------------------------------
 ERR_NAMES = {1: 'WritePermissionError', 2: 'KeyError', 3: 'IndexError', 4: 'TypeError', 5: 'ValueError', 6: 'AssertionError', 7: 'AttributeError',
              9: 'other', 97: 'hang', 99: 'not-applicable'}
@@ -1794,6 +2021,10 @@ def run(ctx):
   for lab, c in rsweep + tsweep:
     if ctx.thorough or rng.random() < 0.1:
       c[0] = list(quirks); cases.append(c); kinds.append('sweep-by-reference:' + lab.split('/')[0])
+  nested = nested_object_cases()
+  for lab, c, prime in nested:
+    c[0] = list(quirks) + [prime]; cases.append(c); kinds.append('sweep-nested-objects')
+  ctx.extra['sweep_nested_objects'] = dict(cases=len(nested))
   ctx.extra['sweep_by_reference'] = dict(total=len(rsweep) + len(tsweep), run=sum(1 for k in kinds if k.startswith('sweep-by-reference')), exhaustive=bool(ctx.thorough))
   n = ctx.scale(900, 20000)
   gens = [(TGen(rng, quirks), 'random', 0.6), (TGen(rng, quirks, p_invalid=0.5), 'random-invalid', 0.2),
@@ -1802,6 +2033,7 @@ def run(ctx):
     for _ in range(int(n * w)):
       cases.append(g.case(rng.choice([4, 8, 10, 12]))); kinds.append(kind)
   for case, kind in zip(cases, kinds):
+    if len(case[0]) < 8: case[0] = list(case[0]) + [rng.randrange(2)]      # entry 8: the derived facts of every node are asked for after every step
     run_one(ctx, case, kind, True, impl_outs)
   ctx.log('implementation ran %d cases in %.1fs' % (len(cases), time.time() - t0))
   model_outs = ctx.model_run(cases)
@@ -1853,10 +2085,20 @@ def run(ctx):
   done = 0
   for _ in range(nw):
     if deadline and time.time() > deadline: break
-    run_one(ctx, wild.case(rng.choice([4, 8, 10]), wild=True), 'oracle-only', False, [], sample_ok=False); done += 1
+    wc = wild.case(rng.choice([4, 8, 10]), wild=True)
+    wc[0] = list(quirks) + [rng.randrange(2)]
+    run_one(ctx, wc, 'oracle-only', False, [], sample_ok=False); done += 1
   if done < nw: skipped['oracle_only_histories'] = nw - done
   ctx.log('oracle-only histories: %d in %.1fs' % (done, time.time() - t1))
   if skipped: ctx.extra['skipped_for_wall_clock'] = skipped
+  # fields with a user transform: every write path, directly (they are outside the spec vocabulary of the cases)
+  tfc = transform_field_checks()
+  for label, problem in tfc:
+    ctx.count(label, nontrivial=True, kind='transform-field')
+    if problem:
+      parts = label.split('/')
+      ctx.hit('C03/member-rejected/%s/transform-field' % parts[2], '%s: %s' % (label, problem), dict(kind='transform-field', label=label))
+  ctx.extra['transform_field_checks'] = dict(checks=len(tfc), problems=sum(1 for _, p in tfc if p))
   ctx.extra['corpus_cases'] = len(corpus())
   # --- violation search when something is broken and the oracle has not hit: more histories biased to the op kinds that disagree
   if ctx.is_broken() and not ctx.hits:
@@ -1871,6 +2113,10 @@ def run(ctx):
 
 def replay(ctx, rp):
   c = rp['case']
+  if c.get('kind') == 'transform-field':
+    bad = [(l, p) for l, p in transform_field_checks() if l == c['label'] and p]
+    for l, p in bad: print('  still fails:', l, '|', p)
+    return not bad
   case = trlib.parse_line(c['case'])
   orc = Oracle()
   run_case(case, after_step=orc, after_init=orc.after_init, guard=bool(c.get('guard', True)))
